@@ -822,15 +822,15 @@ class Model:
                 return cand[0]
         return None
 
-    def nfn(self, qual: str, subst: bool = False, guards: bool = False, keep=(), comps: bool = False, ifexp: bool = False, closures: bool = False, ssa: bool = False) -> Fn:
+    def nfn(self, qual: str, subst: bool = False, guards: bool = False, keep=(), comps: bool = False, ifexp: bool = False, closures: bool = False, ssa: bool = False, ctor: bool = False) -> Fn:
         """the function with its body in normal form (sa/normal.py): helpers inlined, table loops unrolled, ..."""
         import dataclasses
         from . import normal
-        key = (qual, subst, guards, tuple(keep), comps, ifexp, closures, ssa)
+        key = (qual, subst, guards, tuple(keep), comps, ifexp, closures, ssa, ctor)
         cache = self.__dict__.setdefault("_nfn_cache", {})
         if key not in cache:
             f = self.fn(qual)
-            cache[key] = dataclasses.replace(f, node=normal.normalise(self, f, subst=subst, guards=guards, keep=keep, comps=comps, ifexp=ifexp, closures=closures, ssa=ssa))
+            cache[key] = dataclasses.replace(f, node=normal.normalise(self, f, subst=subst, guards=guards, keep=keep, comps=comps, ifexp=ifexp, closures=closures, ssa=ssa, ctor=ctor))
         return cache[key]
 
     def cls(self, qual: str) -> Cls:
